@@ -1279,7 +1279,8 @@ Op Gen::c16Op(int maxCells) {
     Op op;
     op.fn = FN_cellsToLinkedMultiPolygon;
     op.cells = cellSet(maxCells, op.tag);
-    if (r.chance(0.25)) {
+    // (the rare very large sets get the error variants half of the time: "large AND invalid" must not be left to chance)
+    if (r.chance(op.tag.compare(0, 8, "isolated") == 0 ? 0.5 : 0.25)) {
         switch (r.below(6)) {
             case 0:
                 if (!op.cells.empty()) {
